@@ -265,8 +265,20 @@ def r48_no_global_writer(ctx, extra_modules=None):
     n_funcs = 0
     value_cls = [repo.cls(q) for q in VALUE_CLASSES]
     MEMO = ('lru_cache', 'cache', 'cached_property', 'memoize', 'memoized', 'singledispatch')
+
+    def _is_global_setter(call):
+        fn_ = unparse(call.func)
+        return fn_ in GLOBAL_SETTERS or (fn_.startswith('sys.set') and fn_ != 'sys.settrace') or fn_.startswith('os.environ.') \
+            or fn_.endswith('.setlocale') or fn_ in ('os.putenv', 'os.unsetenv')
     for m in repo.modules.values():
         mod_names = _module_level_names(m)
+        # import-time code (module level, class bodies): the same interpreter-wide setters
+        if m.name.startswith('droop'):
+            for n in ast.walk(m.tree):
+                if isinstance(n, ast.Call) and _is_global_setter(n) and repo.enclosing_func(n) is None:
+                    ctx.bad(R, n, m.name, 'no function changes an interpreter-wide setting',
+                            '`%s` at import time changes a process-global setting for everything that runs afterwards (the reader relies on the '
+                            'default int <-> str digit limit to reject absurd numbers promptly)' % unparse(n)[:80])
         for f in [g for g in repo.funcs.values() if g.module is m]:
             n_funcs += 1
             # a memoising decorator is a process-wide table keyed by the arguments: what the function returns for an argument
